@@ -76,6 +76,8 @@ def _neg(a):
 
 def decide(test, at, key=u):
     """Truth value of `test` implied by the facts `at` (True / False / None = not implied)."""
+    if isinstance(test, ast.Constant):
+        return bool(test.value)
     if any(isinstance(n, ast.Call) and u(n.func) not in _PURE_CALLS for n in ast.walk(test)):
         return None          # the same text may evaluate differently the second time
     t, f = atoms(test, True, key), atoms(test, False, key)
@@ -117,7 +119,9 @@ def lift(expr, at, guards=()):
 
 
 def _pure(e):
-    return not any(isinstance(n, (ast.Call, ast.Yield, ast.YieldFrom, ast.Await, ast.NamedExpr)) for n in ast.walk(e))
+    """no call (len() of something pure excepted: it neither has an effect nor creates an object whose identity matters)"""
+    return not any(isinstance(n, (ast.Yield, ast.YieldFrom, ast.Await, ast.NamedExpr)) or
+                   (isinstance(n, ast.Call) and not (isinstance(n.func, ast.Name) and n.func.id == 'len' and len(n.args) == 1 and not n.keywords)) for n in ast.walk(e))
 
 
 class SPath:
@@ -142,7 +146,7 @@ def enum_paths(fi, what, subst_calls=True, limit=64):
             tokens[tok] = (val, stmt)
             env[name] = ast.Name(id=tok, ctx=ast.Load())
 
-    def assign(targets, val, env, stmt):
+    def assign(targets, val, env, stmt, effects=None):
         for t in targets:
             if isinstance(t, ast.Name):
                 bind(env, t.id, val, stmt)
@@ -150,6 +154,8 @@ def enum_paths(fi, what, subst_calls=True, limit=64):
                     and isinstance(val, (ast.Tuple, ast.List)) and len(val.elts) == len(t.elts):
                 for e, v in zip(t.elts, val.elts):
                     bind(env, e.id, v, stmt)
+            elif isinstance(t, (ast.Attribute, ast.Subscript)) and effects is not None:
+                effects.append(('store', stmt, subst(t, env), val))     # recorded: the caller decides what a store means
             else:
                 raise Undecided(f'{what}: store `{u(t)} = {u(val)[:60]}` is outside the evaluated vocabulary')
 
@@ -167,12 +173,12 @@ def enum_paths(fi, what, subst_calls=True, limit=64):
                 val = subst(s.value, env)
                 eager = isinstance(val, ast.IfExp) and (any(isinstance(t, (ast.Tuple, ast.List)) for t in targets) or not (subst_calls or _pure(val)))
                 if not eager:
-                    assign(targets, val, env, s)
+                    assign(targets, val, env, s, effects)
                     continue
                 for arm, at2, g2 in _top_lift(val, at, guards):
-                    env2 = dict(env)
-                    assign(targets, arm, env2, s)
-                    go(todo, env2, at2, g2, list(effects))
+                    env2, eff2 = dict(env), list(effects)
+                    assign(targets, arm, env2, s, eff2)
+                    go(todo, env2, at2, g2, eff2)
                 return
             if isinstance(s, ast.AugAssign) and isinstance(s.target, ast.Name):
                 env[s.target.id] = ast.BinOp(left=subst(ast.Name(id=s.target.id, ctx=ast.Load()), env), op=s.op, right=subst(s.value, env))
@@ -251,38 +257,43 @@ def harvest_kmerspec(ctx):
     calls = [c for c in calls_in(fi.node) if callee_attr(c) == '__attrs_init__']
     rep.require(len(calls) == 1, 'KmerSpec.__init__: no single __attrs_init__ call')
     call = calls[0]
-    kw = {k.arg: k.value for k in call.keywords}
     params = fi.params()
     rep.require(params[:3] == ['self', 'k', 'prefix'], f'KmerSpec.__init__ parameters changed: {params}')
-    env = {'k': K, 'len(prefix)': P}
+    # the keyword values as they reach __attrs_init__: locals substituted, results of calls kept as tokens (the stored prefix is
+    # one object; P is *its* length, whether spelled len(prefix) at the call or bound to a local first)
+    paths, tokens = enum_paths(fi, 'KmerSpec.__init__', subst_calls=False)
+    live = [p for p in paths if p.kind != 'raise']
+    rep.require(len(live) == 1, f'KmerSpec.__init__: {len(live)} paths construct the object (expected one)')
+    p0 = live[0]
+    inits = [(st, e) for (k_, st, e, _i) in p0.effects if k_ == 'expr' and callee_attr(e) == '__attrs_init__']
+    rep.require(len(inits) == 1 and not any(k.arg is None for k in inits[0][1].keywords), 'KmerSpec.__init__: __attrs_init__ is not called exactly once with explicit keywords')
+    kw = {k.arg: k.value for k in inits[0][1].keywords}
+
+    def deref(e):
+        return tokens[e.id][0] if isinstance(e, ast.Name) and e.id in tokens else e
+    pv = kw.get('prefix')
+    env = {'k': K, f'len({u(pv)})': P} if isinstance(pv, ast.Name) else {'k': K}
     want = {'k': K, 'prefix_len': P, 'total_len': K.add(P)}
     for name, w in want.items():
         v = Aff.try_of(kw[name], env) if name in kw else None
-        rep.add('K2.0', fi.site(call), f'KmerSpec.{name} is defined as {w}', v == w, expected=w, found=v if v is not None else u(kw.get(name)),
+        rep.add('K2.0', fi.site(call), f'KmerSpec.{name} is defined as {w}', v == w, expected=w, found=v if v is not None else u(deref(kw[name]) if name in kw else None),
                 stmt=f'__attrs_init__({name}=)')
     # prefix attribute: upper-cased bytes of the argument, validated
-    st = next(s for s in stmts_in(fi.node.body) if any(x is call for x in ast.walk(s)))
-    pv = kw.get('prefix')
-    ok = False
-    found = u(pv)
-    if isinstance(pv, ast.Name):
-        d = reaching_def(fi.node, pv.id, st)
-        v = def_value(d) if d not in (None, PARAM, AMBIGUOUS) else None
-        found = u(v) if v is not None else str(d)
-        ok = isinstance(v, ast.Call) and callee_attr(v) == 'upper' and isinstance(v.func.value, ast.Call) \
-            and m.resolve_call(fi, v.func.value) == 'gambit.seq.seq_to_bytes'
+    v = deref(pv) if pv is not None else None
+    ok = isinstance(v, ast.Call) and callee_attr(v) == 'upper' and not v.args and not v.keywords and isinstance(v.func.value, ast.Call) \
+        and m.resolve_call(fi, v.func.value) == 'gambit.seq.seq_to_bytes' and [u(a) for a in v.func.value.args] == ['prefix'] and not v.func.value.keywords
     rep.add('K6', fi.site(call), 'the stored prefix is the upper-cased byte form of the argument (needle is upper-case)', ok,
-            expected='seq_to_bytes(prefix).upper()', found=found, stmt='__attrs_init__(prefix=)')
-    val = [c for c in calls_in(fi.node) if m.resolve_call(fi, c) == 'gambit.seq.validate_dna_seq_bytes']
-    rep.add('K2.0', fi.site(val[0] if val else call), 'the prefix is validated to contain only ACGT', bool(val), expected='validate_dna_seq_bytes(prefix)',
-            found=[u(c) for c in val], stmt='validate prefix')
-    gm = guard_map(fi.node)
-    at = path_atoms(gm[st], key=lambda n: str(Aff.try_of(n, env)) if Aff.try_of(n, env) is not None else u(n))
-    rep.add('K2.0', fi.site(call), 'k >= 1 is enforced', ('le', '1', 'K') in at or ('lt', '0', 'K') in at, expected='k >= 1', found=sorted(at), stmt='k guard')
+            expected='seq_to_bytes(prefix).upper()', found=u(v), stmt='__attrs_init__(prefix=)')
+    val = [e for (k_, st, e, _i) in p0.effects if k_ == 'expr' and m.resolve_call(fi, e) == 'gambit.seq.validate_dna_seq_bytes']
+    okv = bool(val) and all([u(a) for a in c.args] == [u(pv)] and not c.keywords for c in val)
+    rep.add('K2.0', fi.site(call), 'the prefix is validated to contain only ACGT', okv, expected='validate_dna_seq_bytes(<the stored prefix>)',
+            found=[u(deref(c.args[0]) if c.args else c) for c in val], stmt='validate prefix')
+    at = p0.atoms
+    rep.add('K2.0', fi.site(call), 'k >= 1 is enforced', ('le', '1', 'k') in at or ('lt', '0', 'k') in at, expected='k >= 1', found=sorted(at), stmt='k guard')
     # index_dtype / nkmers attributes come from the functions analysed under K8
     for name, fn in (('index_dtype', 'gambit.kmers.index_dtype'), ('nkmers', 'gambit.kmers.nkmers')):
-        v = kw.get(name)
-        ok = isinstance(v, ast.Call) and m.resolve_call(fi, v) == fn and [u(a) for a in v.args] == ['k']
+        v = deref(kw[name]) if name in kw else None
+        ok = isinstance(v, ast.Call) and m.resolve_call(fi, v) == fn and [u(a) for a in v.args] == ['k'] and not v.keywords
         rep.add('K2.0', fi.site(call), f'KmerSpec.{name} = {fn.rsplit(".", 1)[1]}(k)', ok, expected=f'{name}(k)', found=u(v), stmt=f'__attrs_init__({name}=)')
 
 
@@ -560,6 +571,27 @@ class SearchExec:
             self.und(f'search statements / loop exits under the condition `{u(s.test)}` (not a test of the find() result) are outside the evaluated vocabulary')
         if isinstance(s, ast.While):
             return self.loop(s, env)
+        if isinstance(s, ast.For) and self.is_search(s):
+            # a loop over a literal table (one row per search) is its rows executed one after the other
+            it = self.sub(s.iter, env)
+            ctrl = _loop_ctrl(s.body)
+            if isinstance(it, (ast.Tuple, ast.List)) and not s.orelse and not ctrl and not any(isinstance(e, ast.Starred) for e in it.elts):
+                bound = {n.id for n in ast.walk(s.target) if isinstance(n, ast.Name)}
+                if any(isinstance(n, ast.Name) and n.id in bound and isinstance(n.ctx, ast.Store) for st in stmts_in(s.body) for t in assigned_targets(st) for n in ast.walk(t)):
+                    self.und(f'`for {u(s.target)} in ...`: the row variables are reassigned inside the loop')
+                for row in it.elts:
+                    if isinstance(s.target, ast.Name):
+                        env[s.target.id] = row
+                    elif isinstance(s.target, (ast.Tuple, ast.List)) and all(isinstance(e, ast.Name) for e in s.target.elts) \
+                            and isinstance(row, (ast.Tuple, ast.List)) and len(row.elts) == len(s.target.elts):
+                        for e, x in zip(s.target.elts, row.elts):
+                            env[e.id] = x
+                    else:
+                        self.und(f'`for {u(s.target)} in {u(s.iter)[:40]}`: row `{u(row)[:40]}` cannot be unpacked statically')
+                    sig = self.block(s.body, env)
+                    if sig:
+                        return sig
+                return None
         if self.is_search(s) or isinstance(s, ast.Raise):
             self.und(f'`{u(s).splitlines()[0][:60]}`: matches produced inside this statement are not evaluated (only find() loops are)')
         self.opaque(s, env)
@@ -1019,14 +1051,29 @@ def analyse_slices(ctx, loops):
         rep.require(strand not in disp, f'kmer_index: two returns for the {strand} strand')
         disp[strand] = (v, r)
     rep.floor('K4', 'dispatch branches in kmer_index', len(disp), 2)
-    for strand, wantf in (('forward', 'gambit.kmers.kmer_to_index'), ('reverse', 'gambit.kmers.kmer_to_index_rc')):
-        v, r = disp[strand]
+    # The encoder applied is named by the Cython function that finally runs and the value it runs on.  The Python wrapper
+    # kmer_to_index[_rc](x) is ckmers.kmer_to_index[_rc](seq_to_bytes(x)) (T9, checked below), so a direct call of the Cython
+    # function on seq_to_bytes(x) is the same encoder on the same operand; without the conversion it is not (str / Seq input).
+    cy = 'gambit._cython.kmers'
+
+    def effective(v):
         tgt = m.resolve_call(fk, v)
-        rep.add('K4', fk.site(r), f'{strand} match is encoded with {wantf.rsplit(".", 1)[1]}', tgt == wantf, expected=wantf, found=tgt, stmt=f'{strand}: encoder')
         av = v.args[0] if len(v.args) == 1 and not v.keywords else None
+        if tgt in (f'gambit.kmers.kmer_to_index', 'gambit.kmers.kmer_to_index_rc'):
+            return f'{cy}.{tgt.rsplit(".", 1)[1]}', av, tgt
+        if tgt in (f'{cy}.kmer_to_index', f'{cy}.kmer_to_index_rc'):
+            if isinstance(av, ast.Call) and m.resolve_call(fk, av) == 'gambit.seq.seq_to_bytes' and len(av.args) == 1 and not av.keywords:
+                return tgt, av.args[0], tgt
+            return tgt, None, f'{tgt} on {u(av)} (not converted by seq_to_bytes)'
+        return tgt, av, tgt
+    for strand, wantf in (('forward', 'kmer_to_index'), ('reverse', 'kmer_to_index_rc')):
+        v, r = disp[strand]
+        tgt, av, shown = effective(v)
+        rep.add('K4', fk.site(r), f'{strand} match is encoded with {wantf}', tgt == f'{cy}.{wantf}', expected=f'{wantf} (wrapper, or the Cython function on seq_to_bytes(...))',
+                found=shown, stmt=f'{strand}: encoder')
         ok = isinstance(av, ast.Subscript) and u(av.value) == 'self.seq' and isinstance(av.slice, ast.Call) \
-            and m.resolve_call(fk, av.slice) == 'gambit.kmers.KmerMatch.kmer_indices'
-        rep.add('K4', fk.site(r), f'{strand}: the encoded bytes are self.seq[self.kmer_indices()]', ok, expected='self.seq[self.kmer_indices()]', found=u(av),
+            and m.resolve_call(fk, av.slice) == 'gambit.kmers.KmerMatch.kmer_indices' and not av.slice.args and not av.slice.keywords
+        rep.add('K4', fk.site(r), f'{strand}: the encoded bytes are self.seq[self.kmer_indices()]', ok, expected='self.seq[self.kmer_indices()]', found=u(av) if av is not None else u(v),
                 stmt=f'{strand}: operand')
     rep.account_returns('K4', fk, [disp[k][1] for k in disp], 'k-mer index')
     c07.check_bindings(ctx)
@@ -1042,8 +1089,20 @@ def analyse_accumulate(ctx):
     rep.require(len(fors) == 1, 'accumulate_kmers: expected one for loop')
     loop = fors[0]
     it = loop.iter
-    ok = isinstance(it, ast.Call) and m.resolve_call(fi, it) == 'gambit.kmers.find_kmers' and [u(a) for a in it.args] == [spec, seq]
-    rep.add('K5', fi.site(loop), 'iterates every match of find_kmers(kmerspec, seq)', ok, expected=f'find_kmers({spec}, {seq})', found=u(it), stmt=loop.iter)
+    # the sequence searched: the parameter itself, or its byte form taken once up front - find_kmers searches seq_to_bytes(seq)
+    # and seq_to_bytes is the identity on bytes (K10), and a match only slices the sequence it carries before converting it
+    pre_env = {}
+    for s_ in fi.node.body[:fi.node.body.index(loop)]:
+        if isinstance(s_, ast.Assign) and len(s_.targets) == 1 and isinstance(s_.targets[0], ast.Name) and len(assigns_to(fi.node, s_.targets[0].id)) == 1:
+            pre_env[s_.targets[0].id] = subst(s_.value, pre_env)
+    it2 = subst(it, pre_env)
+    a_ = [get_arg(it2, 0, 'kmerspec'), get_arg(it2, 1, 'seq')] if isinstance(it2, ast.Call) else [None, None]
+    sq = a_[1]
+    if isinstance(sq, ast.Call) and m.resolve_call(fi, sq) == 'gambit.seq.seq_to_bytes' and len(sq.args) == 1 and not sq.keywords:
+        sq = sq.args[0]
+    ok = isinstance(it2, ast.Call) and m.resolve_call(fi, it2) == 'gambit.kmers.find_kmers' and a_[0] not in (None, Ellipsis) and u(a_[0]) == spec \
+        and sq not in (None, Ellipsis) and u(sq) == seq and len(it2.args) + len(it2.keywords) == 2
+    rep.add('K5', fi.site(loop), 'iterates every match of find_kmers(kmerspec, seq)', ok, expected=f'find_kmers({spec}, {seq})', found=u(it2), stmt=loop.iter)
     rep.require(isinstance(loop.target, ast.Name), 'accumulate_kmers: loop target')
     mv = loop.target.id
     tries = [s for s in loop.body if isinstance(s, ast.Try)]
@@ -1274,47 +1333,53 @@ def analyse_accumulators(ctx):
         for f in (init, add, sig):
             rep.functions.add(f.qualname)
         kparam = init.params()[1] if len(init.params()) > 1 else None
+        # the attribute values as they are stored (locals substituted), on the single path through __init__
+        ipaths, _ = enum_paths(init, f'{ci.qualname}.__init__')
+        ipaths = [p for p in ipaths if p.kind != 'raise']
+        rep.require(len(ipaths) == 1, f'{ci.qualname}.__init__: {len(ipaths)} paths (expected one)')
         sets = {}
-        for s in stmts_in(init.node.body):
-            if isinstance(s, ast.Assign) and len(s.targets) == 1 and isinstance(s.targets[0], ast.Attribute) and u(s.targets[0].value) == 'self':
-                sets[s.targets[0].attr] = s
+        for (k_, st, tgt, val) in ipaths[0].effects:
+            if k_ == 'store' and isinstance(tgt, ast.Attribute) and u(tgt.value) == 'self':
+                sets[tgt.attr] = (val, st)
         dt = sets.get('_dtype')
-        okdt = dt is not None and isinstance(dt.value, ast.Call) and m.resolve_call(init, dt.value) == 'gambit.kmers.index_dtype' \
-            and [u(a) for a in dt.value.args] in (['self.k'], [kparam])
-        okk = 'k' in sets and u(sets['k'].value) == kparam
-        rep.add('K7', init.site(dt if dt is not None else None), f'{ci.name}: output dtype is index_dtype(k) of its own k', okdt and okk,
-                expected='self.k = k; self._dtype = index_dtype(self.k)', found=(u(sets.get('k')), u(dt)), stmt=f'{ci.name}: dtype')
+        okdt = dt is not None and isinstance(dt[0], ast.Call) and m.resolve_call(init, dt[0]) == 'gambit.kmers.index_dtype' \
+            and [u(a) for a in dt[0].args] in (['self.k'], [kparam]) and not dt[0].keywords
+        okk = 'k' in sets and u(sets['k'][0]) == kparam
+        rep.add('K7', init.site(dt[1] if dt is not None else None), f'{ci.name}: output dtype is index_dtype(k) of its own k', okdt and okk,
+                expected='self.k = k; self._dtype = index_dtype(self.k)', found=(u(sets['k'][0]) if 'k' in sets else None, u(dt[0]) if dt else None), stmt=f'{ci.name}: dtype')
         # storage
         store_attr = None
         store_kind = None
-        for a, s in sets.items():
-            v = s.value
-            if isinstance(v, ast.Call) and u(v.func) == 'set' and not v.args:
+        for a, (v, st) in sets.items():
+            if isinstance(v, ast.Call) and u(v.func) == 'set' and not v.args and not v.keywords:
                 store_attr, store_kind = a, 'set'
             elif isinstance(v, ast.Call) and u(v.func) in ('np.zeros', 'numpy.zeros'):
                 store_attr, store_kind = a, 'dense'
-                n_arg = v.args[0] if v.args else None
-                okn = isinstance(n_arg, ast.Call) and m.resolve_call(init, n_arg) == 'gambit.kmers.nkmers' and [u(x) for x in n_arg.args] in ([kparam], ['self.k'])
+                n_arg = get_arg(v, 0, 'shape')
+                okn = isinstance(n_arg, ast.Call) and m.resolve_call(init, n_arg) == 'gambit.kmers.nkmers' and [u(x) for x in n_arg.args] in ([kparam], ['self.k']) and not n_arg.keywords
                 dtk = get_arg(v, 1, 'dtype')
-                rep.add('K7', init.site(s), f'{ci.name}: dense array has one boolean cell per possible k-mer', okn and u(dtk) in ('bool', 'np.bool_', "'bool'"),
+                rep.add('K7', init.site(st), f'{ci.name}: dense array has one boolean cell per possible k-mer', okn and u(dtk) in ('bool', 'np.bool_', "'bool'"),
                         expected='np.zeros(nkmers(k), dtype=bool)', found=u(v), stmt=f'{ci.name}: dense storage')
         rep.require(store_kind is not None, f'{ci.qualname}: storage is neither a set() nor np.zeros(...)')
-        # add
+        # add: what the method does to the storage, with locals substituted
         ap = add.params()[1]
-        body = [s for s in add.node.body if not (isinstance(s, ast.Expr) and isinstance(s.value, ast.Constant))]
-        ok = False
-        if store_kind == 'dense':
-            ok = len(body) == 1 and isinstance(body[0], ast.Assign) and isinstance(body[0].targets[0], ast.Subscript) \
-                and u(body[0].targets[0].value) == f'self.{store_attr}' and u(body[0].targets[0].slice) == ap and is_const(body[0].value, True)
-        else:
-            if len(body) == 1 and isinstance(body[0], ast.Expr) and isinstance(body[0].value, ast.Call):
-                c = body[0].value
-                a0 = c.args[0] if c.args else None
-                inner = a0
-                if isinstance(a0, ast.Call) and u(a0.func) in ('self._dtype.type', 'int') and len(a0.args) == 1:
-                    inner = a0.args[0]
-                ok = u(c.func) == f'self.{store_attr}.add' and u(inner) == ap
-        rep.add('K7', add.site(), f'{ci.name}.add records exactly its own argument', ok, expected='store of the argument', found=[u(s) for s in body],
+        apaths, _ = enum_paths(add, f'{ci.qualname}.add')
+        ok = len(apaths) == 1 and apaths[0].kind in ('fall', 'return') and apaths[0].value is None and len(apaths[0].effects) == 1
+        found = [u(s_) for s_ in add.node.body if not (isinstance(s_, ast.Expr) and isinstance(s_.value, ast.Constant))]
+        if ok:
+            k_, st, x, y = apaths[0].effects[0]
+            if store_kind == 'dense':
+                ok = k_ == 'store' and isinstance(x, ast.Subscript) and u(x.value) == f'self.{store_attr}' and u(x.slice) == ap and is_const(y, True)
+                found = f'{u(x)} = {u(y)}' if k_ == 'store' else u(x)
+            else:
+                ok = False
+                found = u(x)
+                if k_ == 'expr' and isinstance(x, ast.Call) and len(x.args) == 1 and not x.keywords:
+                    inner = x.args[0]
+                    if isinstance(inner, ast.Call) and u(inner.func) in ('self._dtype.type', 'int') and len(inner.args) == 1 and not inner.keywords:
+                        inner = inner.args[0]
+                    ok = u(x.func) == f'self.{store_attr}.add' and u(inner) == ap
+        rep.add('K7', add.site(), f'{ci.name}.add records exactly its own argument', ok, expected='store of the argument', found=found,
                 stmt=f'{ci.name}: add')
         # signature: the returned value with locals substituted (an in-place x.sort() makes x the sorted array from there on)
         spaths, _ = enum_paths(sig, f'{ci.qualname}.signature')
@@ -1339,6 +1404,14 @@ def analyse_accumulators(ctx):
 
 
 # ------------------------------------------------------------------------------------------------ K8 / K10
+class _MiniBreak(Exception):
+    pass
+
+
+class _MiniContinue(Exception):
+    pass
+
+
 def analyse_dtype_table(ctx):
     rep, m = ctx.rep, ctx.model
     fi = m.func('gambit.kmers.index_dtype')
@@ -1353,6 +1426,51 @@ def analyse_dtype_table(ctx):
                 return l ** r
             return super().binop(op, l, r, node)
 
+        # module-level constants (a table of (limit, code) rows) and loops over concrete sequences
+        module = fi.module
+
+        def ev(self, e):
+            if isinstance(e, ast.Name) and e.id not in self.env and e.id in self.module.assigns:
+                return self.const(self.module.assigns[e.id])
+            return super().ev(e)
+
+        def const(self, e):
+            """literal value of a module-level constant: strings are kept as strings (Mini reads 1-character strings as C chars)"""
+            if isinstance(e, ast.Constant) and isinstance(e.value, (str, bytes)):
+                return e.value
+            if isinstance(e, (ast.Tuple, ast.List)):
+                return tuple(self.const(x) for x in e.elts)
+            return super().ev(e)
+
+        def stmt(self, s):
+            if isinstance(s, ast.For) and not s.orelse:
+                seq = self.ev(s.iter)
+                if not isinstance(seq, (tuple, list, range)):
+                    raise Undecided(f'index_dtype: loop over {u(s.iter)} (not a concrete sequence)')
+                for item in seq:
+                    self.unpack(s.target, item)
+                    try:
+                        self.run(s.body)
+                    except _MiniBreak:
+                        break
+                    except _MiniContinue:
+                        continue
+                return
+            if isinstance(s, ast.Break):
+                raise _MiniBreak()
+            if isinstance(s, ast.Continue):
+                raise _MiniContinue()
+            return super().stmt(s)
+
+        def unpack(self, target, value):
+            if isinstance(target, ast.Name):
+                self.env[target.id] = value
+            elif isinstance(target, (ast.Tuple, ast.List)) and isinstance(value, (tuple, list)) and len(value) == len(target.elts):
+                for t, v in zip(target.elts, value):
+                    self.unpack(t, v)
+            else:
+                raise Undecided(f'index_dtype: cannot unpack {value!r} into {u(target)}')
+
     def make_on_call(caller, depth):
         def on_call(mini, e):
             f = u(e.func)
@@ -1363,10 +1481,12 @@ def analyse_dtype_table(ctx):
                 names = {'uint8': 'u1', 'uint16': 'u2', 'uint32': 'u4', 'uint64': 'u8'}
                 if e.args[0].attr in names and u(e.args[0].value) in ('np', 'numpy'):
                     return ('dtype', names[e.args[0].attr])
-            if np_dtype and len(e.args) == 1 and not e.keywords and isinstance(e.args[0], ast.Call):
-                v = mini.ev(e.args[0])                      # np.dtype(<dtype>) is that dtype
-                if isinstance(v, tuple) and v and v[0] == 'dtype':
+            if np_dtype and len(e.args) == 1 and not e.keywords and isinstance(e.args[0], (ast.Call, ast.Name, ast.Subscript)):
+                v = mini.ev(e.args[0])                      # np.dtype(<dtype>) is that dtype; np.dtype(<code string>)
+                if isinstance(v, tuple) and len(v) == 2 and v[0] == 'dtype':
                     return v
+                if isinstance(v, str):
+                    return ('dtype', v)
             if f in ('np.min_scalar_type', 'numpy.min_scalar_type') and len(e.args) == 1 and not e.keywords:
                 # numpy: for a non-negative Python int the smallest unsigned type that holds it, object beyond 64 bits
                 n = mini.ev(e.args[0])
@@ -1429,25 +1549,62 @@ def check_seq_to_bytes(ctx):
     fs = m.func('gambit.seq.seq_to_bytes')
     rep.functions.add(fs.qualname)
     sp = fs.params()[0]
-    covered = {}
-    for s in fs.node.body:
-        if isinstance(s, ast.If) and isinstance(s.test, ast.Call) and u(s.test.func) == 'isinstance' and u(s.test.args[0]) == sp:
-            t = s.test.args[1]
-            names = [u(e) for e in t.elts] if isinstance(t, ast.Tuple) else [u(t)]
-            ret = s.body[0].value if len(s.body) >= 1 and isinstance(s.body[-1], ast.Return) else None
-            ret = s.body[-1].value if isinstance(s.body[-1], ast.Return) else None
-            for n in names:
-                covered[n] = ret
+    # Finite-domain evaluation over the type of the argument: for every member of SEQ_TYPES (and for "any other type") the paths
+    # of seq_to_bytes that such an argument can take are selected by deciding each isinstance() guard on that type; a guard of
+    # another form is undetermined (both outcomes possible).  Every path a member can take must return its byte content, every
+    # path another type can take must raise TypeError - however the dispatch is spelled (if / elif chain, guard clauses, a type
+    # check up front, one local assigned per branch and a single return).
+    paths, _ = enum_paths(fs, 'seq_to_bytes')
+
+    def guard_on(t, tname):
+        """truth of guard t for an argument whose type is tname (None = any other type); None when undetermined"""
+        if isinstance(t, ast.UnaryOp) and isinstance(t.op, ast.Not):
+            v = guard_on(t.operand, tname)
+            return None if v is None else not v
+        if isinstance(t, ast.Call) and u(t.func) == 'isinstance' and len(t.args) == 2 and not t.keywords and u(t.args[0]) == sp:
+            c = t.args[1]
+            if isinstance(c, ast.Name) and (m.resolve(fs.module, c) == 'gambit.seq.SEQ_TYPES' or (fs.module is seqmod and c.id == 'SEQ_TYPES')):
+                names = members
+            elif isinstance(c, ast.Tuple) and all(isinstance(e, (ast.Name, ast.Attribute)) for e in c.elts):
+                names = [u(e) for e in c.elts]
+            elif isinstance(c, (ast.Name, ast.Attribute)):
+                names = [u(c)]
+            else:
+                return None
+            return tname in names
+        return None
+
+    def paths_for(tname):
+        out = []
+        for p in paths:
+            if all(guard_on(t, tname) in (None, pol) for (t, pol) in p.guards):
+                out.append(p)
+        return out
     want_conv = {'bytes': [sp], 'bytearray': [sp], 'str': [f"{sp}.encode('ascii')", f'{sp}.encode("ascii")', f"{sp}.encode()"], 'Seq': [f'bytes({sp})']}
+    accounted = []
     for mname in members:
-        r = covered.get(mname)
-        ok = r is not None and (mname not in want_conv or u(r) in want_conv[mname])
-        rep.add('K10', fs.site(r) if r is not None else fs.site(), f'seq_to_bytes converts {mname} to its byte content', ok,
-                expected=want_conv.get(mname, 'a return'), found=u(r), stmt=f'seq_to_bytes[{mname}]')
-    last = fs.node.body[-1]
-    rep.account_returns('K10', fs, [s_.body[-1] for s_ in fs.node.body if isinstance(s_, ast.If) and s_.body and isinstance(s_.body[-1], ast.Return)], 'byte form')
-    rep.add('K10', fs.site(last), 'anything else is a TypeError', isinstance(last, ast.Raise) and raised_name(last) == 'TypeError', expected='raise TypeError',
-            found=u(last)[:60], stmt='seq_to_bytes[else]')
+        ps = paths_for(mname)
+        vals, bad = [], []
+        for p in ps:
+            if p.kind != 'return' or p.value is None:
+                bad.append(f'{p.kind}: {u(p.stmt)[:50] if p.stmt is not None else "falls off the end"}')
+                continue
+            for v, _at, _g in lift(p.value, p.atoms, p.guards):
+                vals.append(u(v))
+                if mname in want_conv and u(v) not in want_conv[mname]:
+                    bad.append(u(v))
+                else:
+                    accounted.append(p.stmt)
+        r = next((p.stmt for p in ps if p.kind == 'return'), None)
+        rep.add('K10', fs.site(r) if r is not None else fs.site(), f'seq_to_bytes converts {mname} to its byte content', bool(ps) and bool(vals) and not bad,
+                expected=want_conv.get(mname, 'a return'), found=(bad or vals or None) if len(bad or vals) != 1 else (bad or vals)[0], stmt=f'seq_to_bytes[{mname}]')
+    others = paths_for(None)
+    bad_other = [f'{p.kind} {u(p.value)[:40] if p.value is not None else ""}' for p in others if not (p.kind == 'raise' and isinstance(p.stmt, ast.Raise) and raised_name(p.stmt) == 'TypeError')]
+    # a return no member type can reach, or reached only under an undetermined guard, is a shortcut the table above does not account for
+    rep.account_returns('K10', fs, [r for r in accounted if r is not None], 'byte form')
+    last = next((p.stmt for p in others if p.stmt is not None), fs.node.body[-1])
+    rep.add('K10', fs.site(last), 'anything else is a TypeError', bool(others) and not bad_other, expected='raise TypeError',
+            found=bad_other[:3] or u(last)[:60], stmt='seq_to_bytes[else]')
 
 
 def check(ctx):
@@ -1493,6 +1650,15 @@ _SIG = "\t\tsig = np.fromiter(self.set, dtype=self._dtype)\n\t\tsig.sort()\n\t\t
 _CS = ("\tif isinstance(seqs, SEQ_TYPES):\n\t\tseqs = [seqs]\n\n\tif accumulator is None:\n\t\taccumulator = default_accumulator(kmerspec.k)\n\n"
        "\tfor seq in seqs:\n\t\taccumulate_kmers(accumulator, kmerspec, seq)\n\n\treturn accumulator.signature()\n")
 _DT = "\tif k <= 4:\n\t\treturn np.dtype('u1')\n\telif k <= 8:\n\t\treturn np.dtype('u2')\n\telif k <= 16:\n\t\treturn np.dtype('u4')\n\telif k <= 32:\n\t\treturn np.dtype('u8')\n\telse:\n\t\treturn None\n"
+_SQ = 'src/gambit/seq.py'
+_S2B = ("\tif isinstance(seq, (bytes, bytearray)):\n\t\treturn seq\n\tif isinstance(seq, str):\n\t\treturn seq.encode('ascii')\n\tif isinstance(seq, Seq):\n"
+        "\t\t# This is recommended in the documentation over the deprecated encode() method, also\n\t\t# probably avoids copying any data as it typically just returns the seq._data attribute.\n"
+        "\t\treturn bytes(seq)\n\traise TypeError(f'Expected sequence type, got {type(seq)}')\n")
+_KI = "\t\tkmer = self.seq[self.kmer_indices()]\n\t\treturn kmer_to_index_rc(kmer) if self.reverse else kmer_to_index(kmer)"
+_KIH = "def _kmer_index(kmer, reverse):\n\tkmer_bytes = seq_to_bytes(kmer)\n\tif reverse:\n\t\treturn ckmers.kmer_to_index_rc(kmer_bytes)\n\treturn ckmers.kmer_to_index(kmer_bytes)\n\n\n"
+_TBL = ("\tprefix = kmerspec.prefix\n\tk = kmerspec.k\n\tsearches = (\n\t\t(prefix, 0, -k, 0, False),\n\t\t(revcomp(prefix), k, None, kmerspec.prefix_len - 1, True),\n\t)\n\n"
+        "\tfor needle, start, end, offset, reverse in searches:\n\t\tloc = haystack.find(needle, start, end)\n\n\t\twhile loc >= 0:\n\t\t\tyield KmerMatch(kmerspec, seq, loc + offset, reverse)\n"
+        "\t\t\tloc = haystack.find(needle, loc + 1, end)\n")
 VARIANTS = [
     V('forward restart after the whole prefix (overlaps missed)', 'B', _K, "\t\tyield KmerMatch(kmerspec, seq, loc, False)\n\n\t\tstart = loc + 1",
       "\t\tyield KmerMatch(kmerspec, seq, loc, False)\n\n\t\tstart = loc + kmerspec.prefix_len", 'K1'),
@@ -1547,6 +1713,66 @@ VARIANTS = [
     V('E: dtype from np.min_scalar_type of 4 ** k - 1, wrapped in np.dtype', 'E', _K, _DT, "\tif k > 32:\n\t\treturn None\n\ttop = 4 ** k - 1\n\treturn np.dtype(np.min_scalar_type(top))\n"),
     V('dtype sized for the number of k-mers 4^k instead of the largest index (seeded C01c)', 'B', _K, _DT, "\tif k > 32:\n\t\treturn None\n\treturn np.min_scalar_type(nkmers(k))\n", 'K8'),
     V('dtype sized for the largest index of k - 1', 'B', _K, _DT, "\tif k > 32:\n\t\treturn None\n\treturn np.min_scalar_type(nkmers(k - 1) - 1)\n", 'K8'),
+    # ---- second round: K10 as a finite-domain evaluation over the argument type, K8 table loop, K2.0 / K4 / K5 through locals and helpers, K1 table of searches
+    V('E: seq_to_bytes as if/elif chain, last guard negated, conversion after the chain', 'E', _SQ, _S2B,
+      "\tif isinstance(seq, (bytes, bytearray)):\n\t\treturn seq\n\telif isinstance(seq, str):\n\t\treturn seq.encode('ascii')\n\telif not isinstance(seq, Seq):\n\t\traise TypeError(f'Expected sequence type, got {type(seq)}')\n\n\treturn bytes(seq)\n"),
+    V('if/elif chain: negated guard tests str, Seq input raises and everything else is passed to bytes()', 'B', _SQ, _S2B,
+      "\tif isinstance(seq, (bytes, bytearray)):\n\t\treturn seq\n\telif isinstance(seq, str):\n\t\treturn seq.encode('ascii')\n\telif isinstance(seq, Seq):\n\t\traise TypeError(f'Expected sequence type, got {type(seq)}')\n\n\treturn bytes(seq)\n", 'K10'),
+    V('E: seq_to_bytes with the type guard first, one local per branch, single return', 'E', _SQ, _S2B,
+      "\tif not isinstance(seq, SEQ_TYPES):\n\t\traise TypeError(f'Expected sequence type, got {type(seq)}')\n\n\tif isinstance(seq, (bytes, bytearray)):\n\t\tconverted = seq\n\telif isinstance(seq, str):\n\t\tconverted = seq.encode('ascii')\n\telse:\n\t\tconverted = bytes(seq)\n\n\treturn converted\n"),
+    V('type guard first: the str branch is missing, str falls into the Seq branch', 'B', _SQ, _S2B,
+      "\tif not isinstance(seq, SEQ_TYPES):\n\t\traise TypeError(f'Expected sequence type, got {type(seq)}')\n\n\tif isinstance(seq, (bytes, bytearray)):\n\t\tconverted = seq\n\telse:\n\t\tconverted = bytes(seq)\n\n\treturn converted\n", 'K10'),
+    V('type guard first, but it only lets the byte types and str through', 'B', _SQ, _S2B,
+      "\tif not isinstance(seq, (bytes, bytearray, str)):\n\t\traise TypeError(f'Expected sequence type, got {type(seq)}')\n\n\tif isinstance(seq, (bytes, bytearray)):\n\t\tconverted = seq\n\telif isinstance(seq, str):\n\t\tconverted = seq.encode('ascii')\n\telse:\n\t\tconverted = bytes(seq)\n\n\treturn converted\n", 'K10'),
+    V('single return form: str is lower-cased on the way', 'B', _SQ, _S2B,
+      "\tif isinstance(seq, (bytes, bytearray)):\n\t\tdata = seq\n\telif isinstance(seq, str):\n\t\tdata = seq.lower().encode('ascii')\n\telif isinstance(seq, Seq):\n\t\tdata = bytes(seq)\n\telse:\n\t\traise TypeError(f'Expected sequence type, got {type(seq)}')\n\n\treturn data\n", 'K10'),
+    V('shortcut return for falsy input before the dispatch', 'B', _SQ, _S2B, "\tif not seq:\n\t\treturn b''\n" + _S2B, 'K10'),
+    V('anything else is converted with bytes() instead of raising', 'B', _SQ, "\traise TypeError(f'Expected sequence type, got {type(seq)}')\n", "\treturn bytes(seq)\n", 'K10'),
+    V('E: index_dtype as a loop over a (largest k, code) table', 'E', _K, _DT, "\tfor max_k, code in _DT_LIMITS:\n\t\tif k <= max_k:\n\t\t\treturn np.dtype(code)\n\treturn None\n",
+      also=[(_K, "def index_dtype(k: int)", "_DT_LIMITS = ((4, 'u1'), (8, 'u2'), (16, 'u4'), (32, 'u8'))\n\n\ndef index_dtype(k: int)")]),
+    V('table loop compares with < (type switches one k early)', 'B', _K, _DT, "\tfor max_k, code in _DT_LIMITS:\n\t\tif k < max_k:\n\t\t\treturn np.dtype(code)\n\treturn None\n", 'K8',
+      also=[(_K, "def index_dtype(k: int)", "_DT_LIMITS = ((4, 'u1'), (8, 'u2'), (16, 'u4'), (32, 'u8'))\n\n\ndef index_dtype(k: int)")]),
+    V('table row for 16-bit indices ends at k = 9', 'B', _K, _DT, "\tfor max_k, code in _DT_LIMITS:\n\t\tif k <= max_k:\n\t\t\treturn np.dtype(code)\n\treturn None\n", 'K8',
+      also=[(_K, "def index_dtype(k: int)", "_DT_LIMITS = ((4, 'u1'), (9, 'u2'), (16, 'u4'), (32, 'u8'))\n\n\ndef index_dtype(k: int)")]),
+    V('table rows in decreasing order (always the widest type)', 'B', _K, _DT, "\tfor max_k, code in _DT_LIMITS:\n\t\tif k <= max_k:\n\t\t\treturn np.dtype(code)\n\treturn None\n", 'K8',
+      also=[(_K, "def index_dtype(k: int)", "_DT_LIMITS = ((32, 'u8'), (16, 'u4'), (8, 'u2'), (4, 'u1'))\n\n\ndef index_dtype(k: int)")]),
+    V('E: prefix length bound to a local before __attrs_init__', 'E', _K, "\t\tvalidate_dna_seq_bytes(prefix)\n", "\t\tvalidate_dna_seq_bytes(prefix)\n\t\tprefix_len = len(prefix)\n",
+      also=[(_K, "\t\t\tprefix_len=len(prefix),\n\t\t\ttotal_len=k + len(prefix),\n", "\t\t\tprefix_len=prefix_len,\n\t\t\ttotal_len=k + prefix_len,\n")]),
+    V('prefix length local: total_len adds it twice', 'B', _K, "\t\tvalidate_dna_seq_bytes(prefix)\n", "\t\tvalidate_dna_seq_bytes(prefix)\n\t\tprefix_len = len(prefix)\n", 'K2.0',
+      also=[(_K, "\t\t\tprefix_len=len(prefix),\n\t\t\ttotal_len=k + len(prefix),\n", "\t\t\tprefix_len=prefix_len,\n\t\t\ttotal_len=prefix_len + prefix_len,\n")]),
+    V('prefix length local is the length of another object (the nucleotide alphabet)', 'B', _K, "\t\tvalidate_dna_seq_bytes(prefix)\n", "\t\tvalidate_dna_seq_bytes(prefix)\n\t\tprefix_len = len(NUCLEOTIDES)\n", 'K2.0',
+      also=[(_K, "\t\t\tprefix_len=len(prefix),\n\t\t\ttotal_len=k + len(prefix),\n", "\t\t\tprefix_len=prefix_len,\n\t\t\ttotal_len=k + prefix_len,\n")]),
+    V('the raw argument is validated, not the stored upper-cased prefix', 'B', _K, "\t\tprefix = seq_to_bytes(prefix).upper()\n\t\tvalidate_dna_seq_bytes(prefix)\n",
+      "\t\tvalidate_dna_seq_bytes(seq_to_bytes(prefix))\n\t\tprefix = seq_to_bytes(prefix).upper()\n", 'K2.0'),
+    V('E: kmer_index calls the Cython encoders directly on the converted slice', 'E', _K, _KI,
+      "\t\tkmer = seq_to_bytes(self.seq[self.kmer_indices()])\n\t\treturn ckmers.kmer_to_index_rc(kmer) if self.reverse else ckmers.kmer_to_index(kmer)"),
+    V('direct Cython call without the conversion to bytes', 'B', _K, _KI,
+      "\t\tkmer = self.seq[self.kmer_indices()]\n\t\treturn ckmers.kmer_to_index_rc(kmer) if self.reverse else ckmers.kmer_to_index(kmer)", 'K4'),
+    V('direct Cython calls crossed', 'B', _K, _KI,
+      "\t\tkmer = seq_to_bytes(self.seq[self.kmer_indices()])\n\t\treturn ckmers.kmer_to_index(kmer) if self.reverse else ckmers.kmer_to_index_rc(kmer)", 'K4'),
+    V('E: encoders through a shared helper with a reverse flag', 'E', _K, _KI, "\t\treturn _kmer_index(self.seq[self.kmer_indices()], self.reverse)",
+      also=[(_K, "def kmer_to_index(kmer: 'DNASeq') -> int:", _KIH + "def kmer_to_index(kmer: 'DNASeq') -> int:")]),
+    V('shared helper called with the flag negated', 'B', _K, _KI, "\t\treturn _kmer_index(self.seq[self.kmer_indices()], not self.reverse)", 'K4',
+      also=[(_K, "def kmer_to_index(kmer: 'DNASeq') -> int:", _KIH + "def kmer_to_index(kmer: 'DNASeq') -> int:")]),
+    V('E: accumulate_kmers converts the sequence to bytes once and searches that', 'E', _C, "\tfor match in find_kmers(kmerspec, seq):\n", "\tseq_bytes = seq_to_bytes(seq)\n\n\tfor match in find_kmers(kmerspec, seq_bytes):\n",
+      also=[(_C, "from gambit.seq import SEQ_TYPES, DNASeq, SequenceFile\n", "from gambit.seq import SEQ_TYPES, DNASeq, SequenceFile, seq_to_bytes\n")]),
+    V('converted once, first base dropped', 'B', _C, "\tfor match in find_kmers(kmerspec, seq):\n", "\tseq_bytes = seq_to_bytes(seq)[1:]\n\n\tfor match in find_kmers(kmerspec, seq_bytes):\n", 'K5',
+      also=[(_C, "from gambit.seq import SEQ_TYPES, DNASeq, SequenceFile\n", "from gambit.seq import SEQ_TYPES, DNASeq, SequenceFile, seq_to_bytes\n")]),
+    V('converted once, but the prefix is searched instead of the sequence', 'B', _C, "\tfor match in find_kmers(kmerspec, seq):\n", "\tseq_bytes = seq_to_bytes(kmerspec.prefix)\n\n\tfor match in find_kmers(kmerspec, seq_bytes):\n", 'K5',
+      also=[(_C, "from gambit.seq import SEQ_TYPES, DNASeq, SequenceFile\n", "from gambit.seq import SEQ_TYPES, DNASeq, SequenceFile, seq_to_bytes\n")]),
+    V('E: both strands searched by one loop over a table of (needle, start, end, offset, reverse)', 'E', _K, _FWD, "", also=[(_K, "\t# Find reverse\n\tprefix_rc = revcomp(kmerspec.prefix)\n" + _REV, _TBL)]),
+    V('search table: reverse row starts at 0', 'B', _K, _FWD, "", 'K1', also=[(_K, "\t# Find reverse\n\tprefix_rc = revcomp(kmerspec.prefix)\n" + _REV, _TBL.replace("(revcomp(prefix), k, None,", "(revcomp(prefix), 0, None,"))]),
+    V('search table: offset column swapped between the rows', 'B', _K, _FWD, "", 'K1',
+      also=[(_K, "\t# Find reverse\n\tprefix_rc = revcomp(kmerspec.prefix)\n" + _REV, _TBL.replace("(prefix, 0, -k, 0, False)", "(prefix, 0, -k, kmerspec.prefix_len - 1, False)").replace("None, kmerspec.prefix_len - 1, True)", "None, 0, True)"))]),
+    V('search table: forward row without the window end', 'B', _K, _FWD, "", 'K1', also=[(_K, "\t# Find reverse\n\tprefix_rc = revcomp(kmerspec.prefix)\n" + _REV, _TBL.replace("(prefix, 0, -k, 0, False)", "(prefix, 0, None, 0, False)"))]),
+    V('search table: restart inside the shared loop skips overlaps', 'B', _K, _FWD, "", 'K1', also=[(_K, "\t# Find reverse\n\tprefix_rc = revcomp(kmerspec.prefix)\n" + _REV, _TBL.replace("loc + 1, end", "loc + len(needle), end"))]),
+    V('search table: strand flags swapped', 'B', _K, _FWD, "", 'K1', also=[(_K, "\t# Find reverse\n\tprefix_rc = revcomp(kmerspec.prefix)\n" + _REV, _TBL.replace("0, False)", "0, True)").replace("- 1, True)", "- 1, False)"))]),
+    # K7 __init__ / add through the values actually stored (arguments bound to locals first)
+    V('E: dense array size and set element bound to locals first', 'E', _C, "\t\tself.array = np.zeros(nkmers(k), dtype=bool)\n", "\t\tsize = nkmers(k)\n\t\tself.array = np.zeros(size, dtype=bool)\n",
+      also=[(_C, "\t\tself.set.add(self._dtype.type(index))\n", "\t\tvalue = self._dtype.type(index)\n\t\tself.set.add(value)\n")]),
+    V('dense array size local one cell short', 'B', _C, "\t\tself.array = np.zeros(nkmers(k), dtype=bool)\n", "\t\tsize = nkmers(k) - 1\n\t\tself.array = np.zeros(size, dtype=bool)\n", 'K7'),
+    V('set element local is the index shifted by one', 'B', _C, "\t\tself.set.add(self._dtype.type(index))\n", "\t\tvalue = self._dtype.type(index + 1)\n\t\tself.set.add(value)\n", 'K7'),
+    V('dense add also clears the neighbouring cell', 'B', _C, "\t\tself.array[i] = True\n\n\tdef discard", "\t\tself.array[i] = True\n\t\tself.array[i - 1] = False\n\n\tdef discard", 'K7'),
     # ---- generalised forms (each accepted idiom with its broken twin)
     # K1: the search as a trace - rotated loop (priming find, hit test as loop condition)
     V('E: forward search as priming find + while loc >= 0', 'E', _K, _FWD, _FWD_ROT),
